@@ -257,3 +257,20 @@ Example C04_declaration_variants_not_merged :
   mwf mw_decl = true /\ mkeys true mw_decl = [0; 1; 0]%nat /\ canon mw_decl 1 = 1%nat.
 Proof. exact decl_variants_not_merged. Qed.
 Print Assumptions C04_declaration_variants_not_merged.
+
+(* E2: the index-string helper pyrates.ir.circuit._get_indexed_var_str (list branch) is regenerated from the source on every run
+   (coq/gen/Gen_get_indexed_var_str.v, harness/py2v.py).  It returns the variable unchanged exactly when the index list is the
+   identity [0 .. var_length-1] (element-wise test); exactly then gathering at the index list is the identity on vectors of
+   that length, so the shortcut does not change the value that the indexed branch of the model reads.  An end-point test
+   instead of the element-wise one changes the generated text and breaks IndexedEquiv. *)
+From Coq Require Import String.
+From PV Require Import PyLib IndexedEquiv.
+From PVG Require Import Gen_get_indexed_var_str.
+Theorem C04_indexed_identity_generated : forall d var idx n reduce s,
+  get_indexed_var_str d var idx n reduce s = indexed_hand d var idx n reduce s /\
+  (identity_idx idx n = true <-> Z.of_nat (List.length idx) = n /\ idx = map Z.of_nat (seq 0 (List.length idx))) /\
+  (forall (A : Type) (l : list A) (dflt : A), Z.of_nat (List.length l) = n -> identity_idx idx n = true -> gather l dflt idx = l) /\
+  ((0 <= n)%Z -> Forall (fun i => (0 <= i)%Z) idx -> Z.of_nat (List.length idx) = n -> identity_idx idx n = false ->
+   gather (map Z.of_nat (seq 0 (Z.to_nat n))) (-1)%Z idx <> map Z.of_nat (seq 0 (Z.to_nat n))).
+Proof. exact indexed_identity_generated. Qed.
+Print Assumptions C04_indexed_identity_generated.
